@@ -32,6 +32,13 @@ META = {
 }
 
 
+def run_extra(ctx: Ctx):
+    # ---------------------------------------------------------------- R09.7 answers never come from state that outlives the question
+    from .common import process_state_rule
+    process_state_rule(ctx, "R09.7", [ctx.repo.func("Project.schedule"), ctx.repo.func("ProjectFileParser.parse")],
+                       "what an added task leaves behind in the kept state changes the answers given to the existing tasks")
+
+
 def run(ctx: Ctx):
     repo = ctx.repo
     sort_rules(ctx, "R09.1")
